@@ -94,7 +94,7 @@ class MPLSVPN(NLRI):
             elif cls.AFI == afn.AFNUM_INET6 and cls.SAFI == safn.SAFNUM_LAB_VPNUNICAST:
                 if len(prefix) < 16:
                     prefix += b'\x00' * (16 - len(prefix))
-                nlri_dict['prefix'] = str(netaddr.IPAddress(int(binascii.b2a_hex(prefix), 16))) +\
+                nlri_dict['prefix'] = str(netaddr.IPAddress(int(binascii.b2a_hex(prefix), 16), 6)) +\
                     '/%s' % (prefix_bit_len - 88)
             value = value[prefix_byte_len + 1:]
             nlri_list.append(nlri_dict)
